@@ -12,7 +12,23 @@ BT_DOUBLE = {'ZERO': 0.0, 'SINGLE': 1.0, 'DOUBLE': 2.0, 'TRIPLE': 3.0, 'QUADRUPL
 
 
 # ---- small model of the RDKit calls the bridge makes (documented indexing only; no chemistry) ------------------
-class FAtom:
+class _Fake:
+    """an RDKit call the model does not cover is an engine limitation (inconclusive), not a failure of the code"""
+
+    def __getattr__(self, name):
+        if not name[:1].isupper():       # RDKit's API is CamelCase; anything else is ordinary attribute probing
+            raise AttributeError(name)
+        raise symx.Unsupported('RDKit API outside the model: %s.%s' % (type(self).__name__, name))
+
+
+class _FakeMeta(type):
+    def __getattr__(cls, name):
+        if not name[:1].isupper():
+            raise AttributeError(name)
+        raise symx.Unsupported('RDKit API outside the model: %s.%s' % (cls.__name__, name))
+
+
+class FAtom(_Fake):
     def __init__(self, symbol):
         self.symbol, self.charge, self.idx, self.nh = symbol, 0, None, 0
 
@@ -35,7 +51,7 @@ class FAtom:
         return self.idx
 
 
-class FBond:
+class FBond(_Fake):
     def __init__(self, i, j, bt):
         self.i, self.j, self.bt = i, j, bt
 
@@ -57,15 +73,51 @@ class FPos:
         self.x, self.y, self.z = xyz
 
 
-class FConf:
+class FRows:
+    """stand-in for the (n, 3) coordinate array Conformer.GetPositions() returns: rows are position vectors"""
+
+    def __init__(self, rows):
+        self.rows = [tuple(r) for r in rows]
+
+    def __len__(self):
+        return len(self.rows)
+
+    def __getitem__(self, i):
+        if isinstance(i, slice):
+            return FRows(self.rows[i])
+        if isinstance(i, tuple):
+            r, c = i
+            return self.rows[r][c]
+        return SymVec(list(self.rows[i]))
+
+    def __iter__(self):
+        return iter(SymVec(list(r)) for r in self.rows)
+
+    def copy(self):
+        return FRows(self.rows)
+
+    def tolist(self):
+        return [list(r) for r in self.rows]
+
+
+class FConf(_Fake):
     def __init__(self, positions):
         self.positions = positions
 
     def GetAtomPosition(self, idx):
         return FPos(self.positions[idx])
 
+    def GetPositions(self):
+        return FRows(self.positions)
 
-class FMol:
+    def GetNumAtoms(self):
+        return len(self.positions)
+
+    def __bool__(self):
+        return True
+
+
+class FMol(_Fake):
     """atoms get consecutive indices in insertion order; GetAtoms iterates by index; SanitizeMol keeps indices"""
 
     def __init__(self):
@@ -88,42 +140,64 @@ class FMol:
     def GetBonds(self):
         return list(self.bonds)
 
-    def GetConformer(self):
-        if self.conf is None:
+    def GetConformer(self, conf_id=-1):
+        if self.conf is None or conf_id not in (-1, 0):
             raise ValueError("Bad Conformer Id")
         return self.conf
 
+    def GetNumConformers(self):
+        return 0 if self.conf is None else 1
 
-class FChem:
+    def GetNumAtoms(self):
+        return len(self.atoms)
+
+    def GetNumBonds(self):
+        return len(self.bonds)
+
+    def GetAtomWithIdx(self, idx):
+        return self.atoms[idx]
+
+    def GetBondBetweenAtoms(self, i, j):
+        for b in self.bonds:
+            if {b.i, b.j} == {i, j}:
+                return b
+        return None
+
+
+class FChem(metaclass=_FakeMeta):
     RWMol = FMol
     Atom = FAtom
     extra_h = 0
 
     @staticmethod
-    def SanitizeMol(m):
+    def SanitizeMol(m, *a, **kw):
         return None
 
     @classmethod
-    def AddHs(cls, m):
+    def AddHs(cls, m, *a, **kw):
         # AddHs appends hydrogens after the existing atoms (documented); how many is chemistry: a shape parameter
         for _ in range(cls.extra_h):
             m.AddAtom(FAtom('H'))
         return m
 
 
-class FAllChem:
+class FAllChem(metaclass=_FakeMeta):
     positions = None      # set by the harness: list of (x, y, z) per atom index
 
     last_symbols = None
 
     @classmethod
-    def EmbedMolecule(cls, m):
+    def EmbedMolecule(cls, m, *a, **kw):
         m.conf = FConf(cls.positions)
         cls.last_symbols = [a.symbol for a in m.atoms]     # which RDKit atom (index) was created for which node (unique symbols)
         return 0
 
     @staticmethod
-    def UFFOptimizeMolecule(m):
+    def UFFOptimizeMolecule(m, *a, **kw):
+        return 0
+
+    @staticmethod
+    def MMFFOptimizeMolecule(m, *a, **kw):
         return 0
 
 
